@@ -340,9 +340,10 @@ class LoaderModel(explorer.Model):
             return got, exp
         if op[0] == 'build':
             # reference first: a fresh loader fed exactly the accepted chunks, built once
+            # (round 12, C18-24: the reference gets the accepted input as ONE text -- "exactly the input accepted up to its build",
+            # however it was cut into calls)
             fresh = xtuml.ModelLoader()
-            for i in w.accepted:
-                fresh.input(self.text_of(i))
+            fresh.input(''.join(self.text_of(i) for i in w.accepted))
             explicit = self.gen_mode(w) == 'explicit'
             try:
                 replica = fresh.build_metamodel(xtuml.IntegerGenerator()) if explicit else fresh.build_metamodel()
